@@ -249,6 +249,20 @@ fn run_c02(ctx: &mut Ctx) {
         case.dup_edges = r.gen_bool(0.3);
         sampled_schedules(ctx, "C02", C02_CLASSES, &case, &mut r, ctx.tier.pick(3, 12), *mask != 0);
     }
+    // both tiers: eager-receive DFS over a few 4-file shapes in which a file with dependencies is
+    // itself a dependency next to a sibling (w -> {x -> y, z}, diamond, chain of four, fan-in + chain)
+    for (si, mask) in [0b0000_0000_0100_1010u64, 0b0000_1000_1000_0110, 0b0000_1000_0100_0010, 0b0000_0000_0100_1110, 0b0000_1000_0100_0110, 0b0000_1000_1100_0010].iter().enumerate() {
+        for threads in [1usize, 2] {
+            if !ctx.claim(4_000_000 + si as u64 * 10 + threads as u64) {
+                continue;
+            }
+            let mut case = GraphCase::new(4, *mask);
+            case.markers = si % 2 == 0;
+            case.threads = threads;
+            dfs_case(ctx, "C02", C02_CLASSES, &case, 6_000, true, true);
+            ctx.count("four_file_fixed_shapes_dfs", 1);
+        }
+    }
     // thorough: every labelled DAG on 4 files, everything requested, 2 threads, eager-receive DFS (capped)
     if ctx.tier == Tier::Thorough {
         for (i, mask) in dags4.iter().enumerate() {
